@@ -23,11 +23,13 @@ func NewBufferPool(size int) *BufferPool {
 
 // Get returns new buffer from pool.
 func (p *BufferPool) Get() *bytes.Buffer {
+	verifPoolGet()
 	return p.pool.Get().(*bytes.Buffer)
 }
 
 // Put returns buffer to pool.
 func (p *BufferPool) Put(b *bytes.Buffer) {
 	b.Reset()
+	verifPoolPut(b)
 	p.pool.Put(b)
 }
